@@ -31,7 +31,7 @@ TRUSTED = ['rendering of the JSON documents into the reduced Coq types (tools/pr
            'the harness reports the core Solution (routes, unassigned) through public fields of vrp_core::models::Solution',
            'bookkeeping dumps come from the verification hook in insertions.rs (observer after apply_insertion_success, '
            'thread-local: only insertions executed on the solving thread are seen)']
-ASSUMPTIONS = ['problem fragment without breaks, reloads, recharges, relations, clustering (ignored / locked lists are empty); '
+ASSUMPTIONS = ['problem fragment without breaks, recharges, relations, clustering (reload marker jobs are filtered out of the trace); '
                'tasks of the same kind inside one job use different locations (checked: precond_viol)',
                'operator choice (which job, which route) is an oracle argument of the bookkeeping model; ruin/removal steps '
                'are validated only through the end-to-end document, not step by step']
@@ -79,11 +79,17 @@ def compare(c, impl, model):
     # (b) the writer names exactly what the core solution holds
     ids = e2e.Ids(c)
     core = impl.get('core') or {}
-    core_routes = [(ids.vehicle(r['vehicle']), r['shift'], [ids.job(j) for j in r['jobs']]) for r in core.get('routes', [])]
+    core_routes = [(ids.vehicle(r['vehicle']), r['shift'], [ids.job(j) for j in r['jobs'] if not e2e.is_conditional_id(c, j)])
+                   for r in core.get('routes', [])]
+    # reload markers: as many reload activities in the document tour as marker jobs in the core route
+    doc_reloads = [sum(1 for st in t['stops'] for a in st['activities'] if a.get('type') == 'reload') for t in s['tours']]
+    core_reloads = [sum(1 for j in r['jobs'] if e2e.is_conditional_id(c, j)) for r in core.get('routes', [])]
+    if doc_reloads != core_reloads:
+        return 'reload activities per document tour %s differ from marker jobs per core route %s' % (doc_reloads, core_reloads)
     got = [(v, sh, list(js)) for (v, sh, js) in doc_routes]
     if core_routes != got:
         return 'document tours %s differ from core routes %s' % (got, core_routes)
-    core_un = [ids.job(j) for j in core.get('unassigned', [])]
+    core_un = [ids.job(j) for j in core.get('unassigned', []) if not e2e.is_conditional_id(c, j)]
     if list(doc_un) != core_un:
         return 'document unassigned %s differ from core unassigned %s' % (doc_un, core_un)
     return None
@@ -92,7 +98,7 @@ def compare(c, impl, model):
 CLASS = {'AJobLost': 'job-lost', 'AJobDuplicated': 'job-duplicated', 'AJobIncomplete': 'job-incomplete',
          'AJobOrder': 'delivery-before-pickup', 'AJobNoReason': 'unassigned-without-reason', 'AForeignJob': 'foreign-job-id',
          'ATourVehicle': 'tour-unknown-vehicle-shift', 'ATourEmpty': 'empty-tour', 'AShiftTwice': 'shift-drives-two-tours',
-         'AExtraActivity': 'undefined-break-reload-activity'}
+         'AExtraActivity': 'undefined-break-reload-activity', 'AReload': 'reload-not-a-distinct-defined-reload-of-the-shift'}
 
 
 def _violations(c, s, items):
@@ -189,13 +195,13 @@ def shrink_candidates(c):
 MANIFEST_TEXT = ('Machine-checked proof (Coq, no axioms) plus a verified end-to-end checker: (1) the declarative statement Accounted '
                  '(each plan job completely in exactly one tour - every task once, pickups before deliveries - or exactly once unassigned '
                  'with a reason; no foreign id; every tour names an existing vehicle shift, serves a job, no shift drives two tours; no '
-                 'undefined break/reload/recharge) is proved equivalent to the executable checker accounted_b; (2) over a model of the '
+                 'undefined break/recharge; every reload activity a distinct reload defined for that very vehicle shift) is proved equivalent to the executable checker accounted_b; (2) over a model of the '
                  'solver bookkeeping primitives (apply_insertion_success/failure, finalize, prepare, try_remove_job, remove_whole_route, '
                  'remove_empty_routes, Solution::from) every job has exactly one home after ANY history, so what reaches the writer is an '
                  'exact partition. The checker is run inside Coq on every document the real solver returns for generated problems under a '
                  'matrix of configurations; the bookkeeping invariant is evaluated on real SolutionContext dumps taken after every insertion.')
 MANIFEST_NOTE = ('Trusted: Coq kernel + vm_compute; JSON->Gallina rendering (cross-checked by a Python twin); harness. Fragment: no breaks, '
-                 'reloads, recharges, relations, clustering. Operator choice is an oracle; ruin steps are validated end-to-end only. '
+                 'recharges, relations, clustering (reloads are in: every reload activity a distinct reload of the tour\'s shift). Operator choice is an oracle; ruin steps are validated end-to-end only. '
                  'Findings made with it (empty tour for a maxDuration vehicle; writer panic on its f64::MAX departure) are fixed '
                  'in /repo and kept as regression cases / reverse-patch mutants.')
 MANIFEST_TECHNIQUE = 'Coq proof (checker soundness/completeness + bookkeeping invariant) + verified checker run on real solver output'
